@@ -45,7 +45,8 @@ pub fn c05_rejoin() {
     let steps = vsym::param("ops", 2);
     let mut i = 0;
     while i < steps {
-        let op = vsym::choice("op", 6);
+        // mid = 1: the middle operation of three is the creation of a database (records of two databases interleave in the log)
+        let op = if vsym::param("mid", 0) == 1 && i == 1 { 4 } else { vsym::choice("op", 6) };
         vsym::tag(&["o", &i.to_string(), "=", &op.to_string()].concat());
         let v = vsym::any_str("value", 3); vsym::assume(v.len() >= 1 && !v.contains(";") && !v.starts_with(" ") && !v.ends_with(" "));
         match op {
@@ -63,6 +64,8 @@ pub fn c05_rejoin() {
     }
     // it comes back: the primary computes the catch-up messages, every message goes through the joiner's parser and handlers
     let msgs = get_pendding_opps_since(since, &cl.nodes[0].dbs);
+    // what the returning node holds before the catch-up (a line that is refused leaves it in place)
+    let held: Vec<Option<Value>> = vec![peek(&cl.nodes[1].dbs, "d", "a"), peek(&cl.nodes[1].dbs, "d", "b"), if cl.nodes[1].dbs.has_db("d") { peek(&cl.nodes[1].dbs, "d", "nk") } else { None }];
     if vsym::param("empty_joiner", 0) == 1 {
         // a node joining with an empty disk: fresh node, authenticated replication session
         let fresh = mk_cnode("n9", 9, ClusterRole::Secoundary);
@@ -76,18 +79,40 @@ pub fn c05_rejoin() {
         while k < msgs.len() { process_request(&msgs[k], &cl.nodes[1].dbs, &mut cl.links[0].server); k += 1; }
     }
     if vsym::param("trace", 0) == 1 { for l in live_keys(&cl.nodes[0].dbs).iter() { vsym::tag(&["P:", l].concat()); } for l in live_keys(&cl.nodes[1].dbs).iter() { vsym::tag(&["J:", l].concat()); } for m in msgs.iter() { vsym::tag(&["M:", m].concat()); } }
+    // independent of what the receiver makes of a line: a catch-up line for a live key of d carries the primary's current value
+    {
+        let names = ["a", "b", "nk"];
+        for key in names.iter() {
+            if let Some(p) = peek(&cl.nodes[0].dbs, "d", key) {
+                if p.state != ValueStatus::Deleted {
+                    let prefix = ["replicate d ", key, " "].concat();
+                    let mut k = 0;
+                    while k < msgs.len() {
+                        if msgs[k].starts_with(&prefix) { vsym::check("resync.catch-up-line-carries-the-primary-value", msgs[k].trim_end_matches("\n").ends_with(&[" ", &p.value].concat())); vsym::cover("resync.catch-up-line-seen", true); }
+                        k += 1;
+                    }
+                }
+            }
+        }
+    }
     vsym::check("resync.same-databases-and-live-keys", same_lines(&live_keys(&cl.nodes[0].dbs), &live_keys(&cl.nodes[1].dbs)));
     // values byte for byte, versions
     let names = ["a", "b", "nk"];
+    let mut ki = 0;
     for key in names.iter() {
+        let held_value = match &held[ki] { Some(h) => Some(h.value.clone()), None => None }; ki += 1;
         match (peek(&cl.nodes[0].dbs, "d", key), peek(&cl.nodes[1].dbs, "d", key)) {
             (Some(p), Some(j)) => if p.state != ValueStatus::Deleted && j.state != ValueStatus::Deleted {
                 vsym::check("resync.value-byte-for-byte", p.value == j.value);
                 vsym::check("resync.version", p.version == j.version);
                 // independent of the recorded defect (the catch-up line has no version field, the receiver takes the first word of the
                 // value for it): what arrives must at least be what that mis-parse predicts - first word dropped
-                let predicted = match p.value.find(" ") { Some(i) => p.value[i + 1..].to_string(), None => String::new() };
-                vsym::check("resync.value-matches-defect-model", j.value == p.value || j.value == predicted);
+                let predicted = match p.value.split_once(" ") { Some((_first, rest)) => rest.to_string(), None => String::new() };
+                // ... and a value whose first word is an integer below -1 makes the receiver refuse the line (reserved versions): it keeps what it held
+                let first = match p.value.split_once(" ") { Some((f, _rest)) => f.to_string(), None => p.value.clone() };
+                let refused = match first.parse::<i32>() { Ok(n) => n < -1, Err(_) => false };
+                let kept = match &held_value { Some(h) => j.value == *h, None => false };
+                vsym::check("resync.value-matches-defect-model", j.value == p.value || j.value == predicted || (refused && kept));
             },
             _ => {}
         }
